@@ -390,8 +390,10 @@ package url
 
 //@ func (*inputString).remainingIsInvalidPercentEncoded
 //@   requires cur(i) && 0 <= i.pointer
+//@   ensures (i.pointer < i.length && off(i.runes) == 0) ==> result0 == specBadEscape(content(i.runes), i.pointer, i.length)   [C01,C10]
 
 //@ func remainingIsInvalidPercentEncoded
+//@   ensures result0 == (len(runes) >= 1 && runes[0] == 0x25 && (len(runes) < 3 || !specIsHex(runes[1]) || !specIsHex(runes[2])))   [C01,C10]
 
 //@ func (*inputString).String
 //@   requires i != nil
@@ -521,6 +523,7 @@ package url
 
 //@ func (*parser).percentEncodeInvalidRune
 //@   requires p != nil && setOK(tr)
+//@   ensures (p.opts.encodingOverride == nil && r >= 0) ==> result == specEncRune(r, tr == nil || setHas(tr, r) || (p.opts.percentEncodeSinglePercentSign && r == 0x25))   [C10]
 
 // ---------------------------------------------------------------------------------------------------------------
 // hostparser.go
@@ -620,6 +623,13 @@ package url
 //@   ensures (url == nil && result1 == nil && firstHash(result0) < inN(result0)) ==> result0.fragment != nil   [C01,C06 hash-present]
 //@   ensures (url == nil && result1 == nil && firstHash(result0) < inN(result0) && p.opts.encodingOverride == nil) ==>
 //@           *result0.fragment == fragSeg(result0, inN(result0))   [C01,C06 hash-value]
+//@   ensures (url == nil && result1 == nil && hasQuery(result0) && p.opts.encodingOverride == nil) ==>
+//@           (result0.query != nil && *result0.query == querySeg(result0, firstHash(result0)))   [C01,C06 query-value]
+//@   ensures (url == nil && result1 == nil && baseUrl == nil && !hasQuery(result0)) ==> result0.query == nil   [C01 no-question-mark-no-query]
+//@   ensures (url == nil && result1 == nil && opaqueCase(result0)) ==> (result0.path.opaque && len(result0.path.p) == 1 && result0.host == nil
+//@           && result0.username == "" && result0.password == "" && result0.port == nil)   [C01 opaque-path-shape]
+//@   ensures (url == nil && result1 == nil && opaqueCase(result0) && p.opts.encodingOverride == nil) ==> result0.path.p[0] == opaqueSeg(result0, firstQH(result0))   [C01 opaque-path-value]
+//@   ensures (url == nil && result1 == nil && (baseUrl == nil || shapeP(baseUrl))) ==> shapeP(result0)   [C04 parse-establishes-shape]
 //@   ensures (url == nil && baseUrl != nil && result1 == nil && lawCase(result0)) ==> (result0.scheme == baseUrl.scheme && pathEq(result0.path, baseUrl.path)
 //@           && (shapeP(baseUrl) ==> authEq(result0, baseUrl)))   [C06 fragment-or-query-only-reference-keeps-base]
 //@   ensures (url == nil && baseUrl != nil && result1 == nil && (inN(result0) == 0 || startsHash(result0))) ==> boxEq(result0.query, baseUrl.query)   [C06 fragment-only-reference-keeps-query]
@@ -724,6 +734,43 @@ package url
 //@   loop 1 invariant (!stateOverridden && state != StateFragment) ==> url.fragment == nil
 //@   loop 1 invariant (!stateOverridden && state == StateFragment) ==> (url.fragment != nil && firstHash(url) <= input.pointer)
 //@   loop 1 invariant (!stateOverridden && state == StateFragment && p.opts.encodingOverride == nil) ==> bufv(buffer) == fragSeg(url, input.pointer + 1)
+//@   loop 1 invariant (!stateOverridden && state != StateQuery && state != StateFragment) ==> specNoQH(inC(url), input.pointer + 1)
+//@   loop 1 invariant (!stateOverridden && state != StateQuery && state != StateFragment && base == nil) ==> url.query == nil
+//@   loop 1 invariant (!stateOverridden && state == StateQuery) ==> (hasQuery(url) && firstQH(url) <= input.pointer)
+//@   loop 1 invariant (!stateOverridden && state == StateQuery && p.opts.encodingOverride == nil) ==> bufv(buffer) == querySeg(url, input.pointer + 1)
+//@   loop 1 invariant (!stateOverridden && state == StateFragment && hasQuery(url) && p.opts.encodingOverride == nil) ==>
+//@            (url.query != nil && *url.query == querySeg(url, firstHash(url)))
+//@   loop 1 invariant (!stateOverridden && state == StateFragment && !hasQuery(url) && base == nil) ==> url.query == nil
+//@   loop 1 invariant (!stateOverridden && state == StateOpaquePath) ==> (hasSch(url) && schEnd(url) <= input.pointer && url.path.opaque && len(url.path.p) == 1
+//@            && url.path.p[0] == bufv(buffer))
+//@   loop 1 invariant (!stateOverridden && state == StateOpaquePath && p.opts.encodingOverride == nil) ==> bufv(buffer) == opaqueSeg(url, input.pointer + 1)
+//@   loop 1 invariant (!stateOverridden && opaqueCase(url)) ==> (state == StateSchemeStart || state == StateScheme || state == StateOpaquePath || state == StateQuery
+//@            || state == StateFragment)
+//@   loop 1 invariant (!stateOverridden && opaqueCase(url)) ==> (url.host == nil && url.username == "" && url.password == "" && url.port == nil)
+//@   loop 1 invariant (!stateOverridden && opaqueCase(url) && (state == StateQuery || state == StateFragment)) ==> (url.path.opaque && len(url.path.p) == 1)
+//@   loop 1 invariant (!stateOverridden && opaqueCase(url) && (state == StateQuery || state == StateFragment) && p.opts.encodingOverride == nil) ==>
+//@            url.path.p[0] == opaqueSeg(url, firstQH(url))
+//@   loop 1 invariant (!stateOverridden && (state == StateSchemeStart || state == StateScheme || state == StateNoScheme || state == StateSpecialRelativeOrAuthority
+//@            || state == StatePathOrAuthority || state == StateRelative || state == StateRelativeSlash || state == StateSpecialAuthoritySlashes
+//@            || state == StateSpecialAuthorityIgnoreSlashes || state == StateFile)) ==> (url.username == "" && url.password == "" && url.host == nil && url.port == nil
+//@            && !url.path.opaque)
+//@   loop 1 invariant (!stateOverridden && state == StateRelative) ==> base.scheme != "file"
+//@   loop 1 invariant (!stateOverridden && (state == StateAuthority || state == StateHost || state == StateHostname || state == StatePort || state == StateFileSlash
+//@            || state == StateFileHost || state == StatePathStart)) ==> !url.path.opaque
+//@   loop 1 invariant (!stateOverridden && (state == StateFileSlash || state == StateFileHost)) ==> (url.username == "" && url.password == "" && url.port == nil
+//@            && url.scheme == "file" && url.host != nil)
+//@   loop 1 invariant (!stateOverridden && (state == StateSpecialRelativeOrAuthority || state == StatePathOrAuthority || state == StateRelativeSlash
+//@            || state == StateSpecialAuthoritySlashes || state == StateSpecialAuthorityIgnoreSlashes || state == StateAuthority || state == StateHost
+//@            || state == StateHostname || state == StatePort || state == StateOpaquePath)) ==> url.scheme != "file"
+//@   loop 1 invariant (!stateOverridden && (baseUrl == nil || shapeP(baseUrl)) && url.path.opaque) ==> url.host == nil
+//@   loop 1 invariant (!stateOverridden && (baseUrl == nil || shapeP(baseUrl)) && (url.username != "" || url.password != "" || url.port != nil)) ==>
+//@            ((url.host != nil || state == StateAuthority || state == StateHost || state == StateHostname) && url.scheme != "file")
+//@   loop 1 invariant (!stateOverridden && (baseUrl == nil || shapeP(baseUrl)) && special(url, url.scheme) && (state == StatePathStart || state == StatePath
+//@            || state == StateQuery || state == StateFragment || state == StatePort)) ==> url.host != nil
+//@   loop 1 invariant (!stateOverridden && (baseUrl == nil || shapeP(baseUrl)) && special(url, url.scheme)) ==> !url.path.opaque
+//@   loop 1 invariant (!stateOverridden && state == StateOpaquePath) ==> (!special(url, url.scheme) && url.host == nil)
+//@   loop 1 invariant (!stateOverridden && state == StatePathOrAuthority) ==> !special(url, url.scheme)
+//@   loop 1 invariant (!stateOverridden && state == StatePort) ==> url.host != nil
 //@   loop 1 decreases specRank(state), input.length - input.pointer
 //@   loop 2 modifies url.username, url.password, bb.pointer, bb.eof
 //@   loop 2 invariant cur(bb) && fresh(bb) && bb != input && url != nil
@@ -906,12 +953,17 @@ package url
 //@ func (*Url).Parse
 //@   requires wf(u)
 //@   ensures result1 == nil ==> (result0 != nil && fresh(result0) && wf(result0) && allFresh(result0))   [C02,C13,C14]
+//@   ensures (result1 == nil && shapeP(u)) ==> shapeP(result0)   [C04 parse-establishes-shape]
 //@   ensures result1 == nil ==> result0.inputUrl == old(cleanedP(ref))   [C01,C06 input-cleaning]
 //@   ensures (result1 == nil && hasSch(result0)) ==> result0.scheme == specLowerRunes(inC(result0), schEnd(result0))   [C01 scheme-value]
 //@   ensures (result1 == nil && !hasSch(result0)) ==> result0.scheme == u.scheme   [C06 relative-reference-keeps-base-scheme]
 //@   ensures (result1 == nil && firstHash(result0) == inN(result0)) ==> result0.fragment == nil   [C01,C06 no-hash-no-fragment]
 //@   ensures (result1 == nil && firstHash(result0) < inN(result0)) ==> result0.fragment != nil   [C01,C06 hash-present]
 //@   ensures (result1 == nil && firstHash(result0) < inN(result0) && u.parser.opts.encodingOverride == nil) ==> *result0.fragment == fragSeg(result0, inN(result0))   [C01,C06 hash-value]
+//@   ensures (result1 == nil && hasQuery(result0) && u.parser.opts.encodingOverride == nil) ==> (result0.query != nil && *result0.query == querySeg(result0, firstHash(result0)))   [C01,C06 query-value]
+//@   ensures (result1 == nil && opaqueCase(result0)) ==> (result0.path.opaque && len(result0.path.p) == 1 && result0.host == nil
+//@           && result0.username == "" && result0.password == "" && result0.port == nil)   [C01 opaque-path-shape]
+//@   ensures (result1 == nil && opaqueCase(result0) && u.parser.opts.encodingOverride == nil) ==> result0.path.p[0] == opaqueSeg(result0, firstQH(result0))   [C01 opaque-path-value]
 //@   ensures (result1 == nil && lawCase(result0)) ==> (result0.scheme == u.scheme && pathEq(result0.path, u.path) && (shapeP(u) ==> authEq(result0, u)))   [C06 fragment-or-query-only-reference-keeps-base]
 //@   ensures (result1 == nil && (inN(result0) == 0 || startsHash(result0))) ==> boxEq(result0.query, u.query)   [C06 fragment-only-reference-keeps-query]
 //@   ensures (u.path.opaque && result1 == nil) ==> (hasSch(result0) || startsHash(result0))   [C06 opaque-base-accepts-only-fragment]
@@ -919,14 +971,21 @@ package url
 //@ func (*parser).Parse
 //@   requires okOpts(p)
 //@   ensures result1 == nil ==> (result0 != nil && fresh(result0) && wf(result0) && allFresh(result0) && result0.parser == p)   [C02,C13,C14]
+//@   ensures result1 == nil ==> shapeP(result0)   [C04 parse-establishes-shape]
 //@   ensures result1 == nil ==> result0.inputUrl == old(cleanedP(rawUrl))   [C01 input-cleaning]
 //@   ensures result1 == nil ==> (hasSch(result0) && result0.scheme == specLowerRunes(inC(result0), schEnd(result0)))   [C01 scheme-value]
 //@   ensures (result1 == nil && firstHash(result0) == inN(result0)) ==> result0.fragment == nil   [C01 no-hash-no-fragment]
 //@   ensures (result1 == nil && firstHash(result0) < inN(result0)) ==> result0.fragment != nil   [C01 hash-present]
 //@   ensures (result1 == nil && firstHash(result0) < inN(result0) && p.opts.encodingOverride == nil) ==> *result0.fragment == fragSeg(result0, inN(result0))   [C01 hash-value]
+//@   ensures (result1 == nil && hasQuery(result0) && p.opts.encodingOverride == nil) ==> (result0.query != nil && *result0.query == querySeg(result0, firstHash(result0)))   [C01 query-value]
+//@   ensures (result1 == nil && !hasQuery(result0)) ==> result0.query == nil   [C01 no-question-mark-no-query]
+//@   ensures (result1 == nil && opaqueCase(result0)) ==> (result0.path.opaque && len(result0.path.p) == 1 && result0.host == nil
+//@           && result0.username == "" && result0.password == "" && result0.port == nil)   [C01 opaque-path-shape]
+//@   ensures (result1 == nil && opaqueCase(result0) && p.opts.encodingOverride == nil) ==> result0.path.p[0] == opaqueSeg(result0, firstQH(result0))   [C01 opaque-path-value]
 //@ func (*parser).ParseRef
 //@   requires okOpts(p)
 //@   ensures result1 == nil ==> (result0 != nil && fresh(result0) && wf(result0) && allFresh(result0))   [C02,C13,C14]
+//@   ensures result1 == nil ==> shapeP(result0)   [C04 parse-establishes-shape]
 //@ func (*parser).NewUrl
 //@   requires p != nil
 //@   ensures result != nil && fresh(result) && result.parser == p && result.path != nil
